@@ -381,6 +381,8 @@ def _inert(st: ast.stmt, env: dict) -> bool:
         fn = st.value.func
         if _u(fn.value) == "super()" and fn.attr == env.get("@method") and fn.attr in SUPER_PASS:
             return True
+        if _u(st) == "super().__init__(**kwargs)" and env.get("@method") == "__init__":
+            return True            # pydantic field defaults: empty dictionaries, counters 0 (C15_gen_constants), no default durations
     if (isinstance(st, ast.For) and not st.orelse and isinstance(st.target, ast.Name) and len(st.body) == 1
             and _u(st.iter) in ("self.folders.values()", "self.files.values()")
             and _u(st.body[0]) == f"{st.target.id}.pre_timestep(timestep)" and env.get("@method") == "pre_timestep"):
@@ -536,6 +538,9 @@ def _lstmts(body: List[ast.stmt], kind: str, res: str, env: dict, ind: int) -> s
         neg = isinstance(t, ast.UnaryOp) and isinstance(t.op, ast.Not)
         core = t.operand if neg else t
         yes, no = (list(st.orelse), list(st.body)) if neg else (list(st.body), list(st.orelse))
+        if kind == "fs" and _u(core) == "self.folders":          # truthiness of the dict of live folders
+            return (pad + "if !s.folders.isEmpty then\n" + _lstmts(yes + rest, kind, res, env, ind + 1) + "\n" + pad + "else\n"
+                    + _lstmts(no + rest, kind, res, env, ind + 1))
         if isinstance(core, ast.Name) and env.get(core.id) == "name":
             return (pad + f"if {core.id} != \"\" then\n" + _lstmts(yes + rest, kind, res, env, ind + 1) + "\n" + pad + "else\n"
                     + _lstmts(no + rest, kind, res, env, ind + 1))
@@ -697,6 +702,8 @@ def _lstmts(body: List[ast.stmt], kind: str, res: str, env: dict, ind: int) -> s
             if env.get(x) != "file":
                 raise Unsupported("remove_file argument " + _u(c))
             return pad + f"let g := g.removeFile {x}\n" + _lstmts(rest, kind, res, env, ind)
+        if kind == "fs" and f == "self.create_folder" and len(c.args) + len(c.keywords) == 1:
+            return pad + f"let s := (fsCreateFolder s {_name_arg(_lkw(c, 'folder_name', 0), env)}).1\n" + _lstmts(rest, kind, res, env, ind)
         if kind == "fs" and f == "self.delete_file" and not c.args and {k.arg for k in c.keywords} == {"folder_name", "file_name"}:
             return (pad + f"let s := (fsDeleteFile s {_name_arg(_lkw(c, 'folder_name', 0), env)} {_name_arg(_lkw(c, 'file_name', 1), env)}).1\n"
                     + _lstmts(rest, kind, res, env, ind))
@@ -709,6 +716,185 @@ def _lstmts(body: List[ast.stmt], kind: str, res: str, env: dict, ind: int) -> s
     raise Unsupported("statement " + _u(st)[:80])
 
 
+
+# ---------------------------------------------------------------------------------------------- structurally inert methods + the tick
+# A method is STRUCTURALLY INERT when, syntactically, it (a) assigns only to local names and to `self.<attr>` with attr in a whitelist of
+# non-structural attributes, (b) calls only whitelisted callees (each itself inert or translated with an unchanged structural part), (c) has no
+# raise / del / with / try / lambda, and (d) iterates only over `self.files` (keys, values or items). Everything structural — `files`,
+# `deleted_files`, `deleted`, `restore_countdown`, the request managers, `folders`, `deleted_folders` — can then not be written.
+NONSTRUCT = {"scan_countdown", "red_scan_countdown", "health_status", "visible_health_status", "_scanned_this_step", "revealed_to_red", "num_access"}
+INERT_CALLS = {"self.get_file_by_id", "file.scan", "file.repair", "file.corrupt", "file.reveal_to_red", "FileSystemItemHealthStatus", "max",
+               "self.files.values", "warnings.warn"}
+INERT_METHODS = [  # (file constant name, class, method, extra allowed callees)
+    ("FOLDER", "Folder", "_scan_timestep", ()), ("FOLDER", "Folder", "_reveal_to_red_timestep", ()), ("FILE", "File", "reveal_to_red", ()),
+    ("FILE", "File", "apply_timestep", ("super().apply_timestep", "super")),
+    # the folder-level health verbs: loops over the live files calling the (translated) file verbs; their ANSWER is tied by the guard table
+    # (`C15_gen_guards`: False for a deleted folder, True otherwise), their structural inertness here
+    ("FOLDER", "Folder", "scan", ()), ("FOLDER", "Folder", "repair", ()), ("FOLDER", "Folder", "corrupt", ()), ("FOLDER", "Folder", "reveal_to_red", ()),
+]
+
+
+def _assert_inert(fn: ast.FunctionDef, where: str, extra=()) -> None:
+    for n in ast.walk(fn):
+        if isinstance(n, (ast.Raise, ast.Delete, ast.With, ast.Try, ast.Lambda, ast.Global, ast.Nonlocal, ast.Await, ast.Yield, ast.YieldFrom,
+                          ast.FunctionDef, ast.ClassDef)) and n is not fn:
+            raise Unsupported(f"{where}: {type(n).__name__} in a method taken to be structurally inert")
+        if isinstance(n, (ast.Assign, ast.AugAssign, ast.AnnAssign)):
+            for t in (n.targets if isinstance(n, ast.Assign) else [n.target]):
+                ok = isinstance(t, ast.Name) or (isinstance(t, ast.Attribute) and _u(t.value) == "self" and t.attr in NONSTRUCT)
+                if not ok:
+                    raise Unsupported(f"{where}: writes {_u(t)} (not in the non-structural whitelist)")
+        if isinstance(n, ast.Call):
+            f = _u(n.func)
+            if not (f in INERT_CALLS or f in extra or f.startswith(("self.sys_log.", "_LOGGER."))):
+                raise Unsupported(f"{where}: calls {f} (not known to be structurally inert)")
+        if isinstance(n, (ast.For, ast.comprehension)) and _u(n.iter) not in ("self.files", "self.files.values()", "self.files.items()"):
+            raise Unsupported(f"{where}: iterates over {_u(n.iter)}")
+        if isinstance(n, ast.NamedExpr):
+            raise Unsupported(f"{where}: walrus assignment")
+
+
+def _tick_methods() -> List[str]:
+    from harness.extract.filesystem import FILE, FS, ITEM
+    rels = {"FOLDER": FOLDER, "FILE": FILE}
+    for relname, cn, m, extra in INERT_METHODS:
+        _assert_inert(find_method(class_def(parse(rels[relname]), cn), m), f"{cn}.{m}", extra)
+    core = class_def(parse("simulator/core.py"), "SimComponent")
+    b = [x for x in find_method(core, "apply_timestep").body if not (isinstance(x, ast.Expr) and isinstance(x.value, ast.Constant))]
+    if not (len(b) == 1 and isinstance(b[0], ast.Pass)):
+        raise Unsupported("SimComponent.apply_timestep is not `pass`")
+    item = class_def(parse(ITEM), "FileSystemItemABC")
+    if any(isinstance(n, ast.FunctionDef) and n.name == "apply_timestep" for n in item.body):
+        raise Unsupported("FileSystemItemABC overrides apply_timestep")
+    for m in ("scan", "reveal_to_red"):
+        fn = find_method(class_def(parse(FS), "FileSystem"), m)
+        b = [st for st in fn.body if not _rskip(st)]
+        if not (len(b) == 1 and isinstance(b[0], ast.For) and isinstance(b[0].target, ast.Name) and not b[0].orelse and len(b[0].body) == 1
+                and (_u(b[0].iter), _u(b[0].body[0])) in (("self.folders", f"self.folders[{b[0].target.id}].{m}(instant_scan=instant_scan)"),
+                                                           ("self.folders.values()", f"{b[0].target.id}.{m}(instant_scan=instant_scan)"))):
+            raise Unsupported(f"FileSystem.{m}: not a plain loop over the live folders calling Folder.{m}")
+    # Folder.apply_timestep onto FolderRec
+    fo = find_method(class_def(parse(FOLDER), "Folder"), "apply_timestep")
+    if [a.arg for a in fo.args.args] != ["self", "timestep"]:
+        raise Unsupported("signature of Folder.apply_timestep")
+    L = ["/-- `Folder.apply_timestep`, translated statement by statement onto `FolderRec` (the scan / reveal steps and the files' own",
+         "`apply_timestep` are checked to be structurally inert by the extractor and dropped) -/",
+         "def folderApplyTimestep (r : FolderRec) : FolderRec :="]
+    inert_self = {f"self.{m}()" for _, cn, m, _ in INERT_METHODS if cn == "Folder"}
+    for st in fo.body:
+        if _rskip(st):
+            continue
+        u = _u(st)
+        if u == "super().apply_timestep(timestep=timestep)" or u in inert_self:
+            continue
+        if u == "self._restoring_timestep()":
+            L.append("  let r := folderRestoringTimestep r")
+            continue
+        if (isinstance(st, ast.For) and _u(st.iter) == "self.files" and isinstance(st.target, ast.Name) and len(st.body) == 1 and not st.orelse
+                and _u(st.body[0]) == f"self.files[{st.target.id}].apply_timestep(timestep=timestep)"):
+            continue
+        raise Unsupported("Folder.apply_timestep: " + u[:80])
+    L += ["  r", ""]
+    # FileSystem.apply_timestep: every LIVE folder, each on its own object
+    fs = find_method(class_def(parse(FS), "FileSystem"), "apply_timestep")
+    if [a.arg for a in fs.args.args] != ["self", "timestep"]:
+        raise Unsupported("signature of FileSystem.apply_timestep")
+    L += ["/-- `FileSystem.apply_timestep`, translated: the loop over the LIVE folders (a folder's tick touches only that folder; its structural",
+          "result does not depend on its health: `C15_restoring_timestep_ignores_health`) -/", "def fsApplyTimestep (s : State) : State :="]
+    for st in fs.body:
+        if _rskip(st):
+            continue
+        u = _u(st)
+        if u == "super().apply_timestep(timestep=timestep)":
+            continue
+        if isinstance(st, ast.For) and isinstance(st.target, ast.Name) and len(st.body) == 1 and not st.orelse:
+            k = st.target.id
+            if (_u(st.iter), _u(st.body[0])) in (("self.folders", f"self.folders[{k}].apply_timestep(timestep=timestep)"),
+                                                 ("self.folders.values()", f"{k}.apply_timestep(timestep=timestep)")):
+                L.append("  let s := { s with folders := s.folders.map (fun g => (folderApplyTimestep { g := g }).g) }")
+                continue
+        raise Unsupported("FileSystem.apply_timestep: " + u[:80])
+    L += ["  s", ""]
+    return L
+
+
+# ---------------------------------------------------------------------------------------------- describe_state
+# `describe_state` of FileSystem / Folder onto the model's `Desc` / `FolderDesc` (the structural part of the report):
+#     state = super().describe_state()                                           (folder: id := g.id — emit() checks that the chain
+#                                                                                 FileSystemItemABC → SimComponent puts `uuid: self.uuid` in)
+#     state[K] = {X.name: X.describe_state() for X in self.<dict>.values()}      <field K> := pyDict (<list>.map fun X => (X.name, D X))
+#     state[K] = {X.name: X.describe_state() for _, X in self.<dict>.items()}    (the same)       D folder = folderDescribeState, D file = its uuid
+#     state[K] = self.num_file_creations / self.num_file_deletions               numCreations / numDeletions := …
+#     state[K] = self._scanned_this_step                                         skipped (not structural)
+#     return state
+DESC_FIELDS = {"FileSystem": {"folders": "folders", "deleted_folders": "deletedFolders", "num_file_creations": "numCreations",
+                              "num_file_deletions": "numDeletions"},
+               "Folder": {"files": "files", "deleted_files": "deletedFiles"}}
+DESC_SKIP = {"Folder": {"scanned_this_step": "self._scanned_this_step"}, "FileSystem": {}}
+DESC_LISTS = {"FileSystem": {"self.folders": "s.folders", "self.deleted_folders": "s.deletedFolders"},
+              "Folder": {"self.files": "g.files", "self.deleted_files": "g.deletedFiles"}}
+
+
+def _describe(cn: str, fn: ast.FunctionDef) -> List[str]:
+    if [a.arg for a in fn.args.args] != ["self"]:
+        raise Unsupported(f"signature of {cn}.describe_state")
+    body = [st for st in fn.body if not _rskip(st)]
+    if not (len(body) >= 2 and _u(body[0]) == "state = super().describe_state()" and _u(body[-1]) == "return state"):
+        raise Unsupported(f"{cn}.describe_state: frame")
+    fields = {}
+    for st in body[1:-1]:
+        if not (isinstance(st, ast.Assign) and len(st.targets) == 1 and isinstance(st.targets[0], ast.Subscript) and _u(st.targets[0].value) == "state"
+                and isinstance(st.targets[0].slice, ast.Constant) and isinstance(st.targets[0].slice.value, str)):
+            raise Unsupported(f"{cn}.describe_state: " + _u(st)[:70])
+        key, v = st.targets[0].slice.value, st.value
+        if key in DESC_SKIP[cn] and _u(v) == DESC_SKIP[cn][key]:
+            continue
+        fld = DESC_FIELDS[cn].get(key)
+        if fld is None or fld in fields:
+            raise Unsupported(f"{cn}.describe_state: key {key!r}")
+        if isinstance(v, ast.DictComp) and len(v.generators) == 1 and not v.generators[0].ifs:
+            gen = v.generators[0]
+            it, tgt = _u(gen.iter), gen.target
+            if it.endswith(".values()") and isinstance(tgt, ast.Name):
+                x, src = tgt.id, it[:-len(".values()")]
+            elif it.endswith(".items()") and isinstance(tgt, ast.Tuple) and len(tgt.elts) == 2 and isinstance(tgt.elts[1], ast.Name):
+                x, src = tgt.elts[1].id, it[:-len(".items()")]
+            else:
+                raise Unsupported(f"{cn}.describe_state: comprehension over {it}")
+            lst = DESC_LISTS[cn].get(src)
+            if lst is None or _u(v.key) != f"{x}.name" or _u(v.value) != f"{x}.describe_state()":
+                raise Unsupported(f"{cn}.describe_state: comprehension {_u(v)[:70]}")
+            d = f"folderDescribeState {x}" if cn == "FileSystem" else f"{x}.id"
+            fields[fld] = f"pyDict ({lst}.map fun {x} => ({x}.name, {d}))"
+        elif cn == "FileSystem" and _u(v) in ("self.num_file_creations", "self.num_file_deletions"):
+            fields[fld] = "s.numCreations" if _u(v).endswith("creations") else "s.numDeletions"
+        else:
+            raise Unsupported(f"{cn}.describe_state: value {_u(v)[:70]}")
+    if set(fields) != set(DESC_FIELDS[cn].values()):
+        raise Unsupported(f"{cn}.describe_state: missing keys {sorted(set(DESC_FIELDS[cn].values()) - set(fields))}")
+    head = "{ id := g.id, " if cn == "Folder" else "{ "
+    return ["  " + head + ", ".join(f"{k} := {fields[k]}" for k in DESC_FIELDS[cn].values()) + " }", ""]
+
+
+def _describe_methods() -> List[str]:
+    from harness.extract.filesystem import FS, ITEM
+    # the uuid in a folder's / file's report comes from SimComponent.describe_state through FileSystemItemABC.describe_state
+    core = find_method(class_def(parse("simulator/core.py"), "SimComponent"), "describe_state")
+    if not any(isinstance(n, ast.Dict) and any(isinstance(k, ast.Constant) and k.value == "uuid" and _u(v) == "self.uuid" for k, v in zip(n.keys, n.values))
+               for n in ast.walk(core)):
+        raise Unsupported("SimComponent.describe_state does not report 'uuid': self.uuid")
+    item = find_method(class_def(parse(ITEM), "FileSystemItemABC"), "describe_state")
+    ib = [st for st in item.body if not _rskip(st)]
+    if not (_u(ib[0]) == "state = super().describe_state()" and _u(ib[-1]) == "return state"
+            and not any(isinstance(st, ast.Assign) and "uuid" in _u(st.targets[0]) for st in ib[1:-1])):
+        raise Unsupported("FileSystemItemABC.describe_state: frame")
+    L = ["/-- `Folder.describe_state`, translated onto the structural `FolderDesc` (a file's entry is abstracted to its uuid) -/",
+         "def folderDescribeState (g : Folder) : FolderDesc :="]
+    L += _describe("Folder", find_method(class_def(parse(FOLDER), "Folder"), "describe_state"))
+    L += ["/-- `FileSystem.describe_state`, translated onto the structural `Desc` -/", "def fsDescribeState (s : State) : Desc :="]
+    L += _describe("FileSystem", find_method(class_def(parse(FS), "FileSystem"), "describe_state"))
+    return L
+
 LOOKUP_METHODS = [  # (class, method, lean name, kind, result, parameters (python name -> (lean binder, env kind)))
     ("Folder", "get_file", "folderGetFile", "folder", "optfile", [("file_name", "Name", None), ("include_deleted", "Bool", "bool")]),
     ("Folder", "remove_file", "folderRemoveFile", "folder", "unit", [("file", "File", "file")]),
@@ -720,6 +906,8 @@ LOOKUP_METHODS = [  # (class, method, lean name, kind, result, parameters (pytho
                                                                    ("folder_name", "Name", "name"), ("force", "Bool", "bool")]),
     ("FileSystem", "pre_timestep", "fsPreTimestep", "fs", "unit", [("timestep", None, None)]),
     ("FileSystem", "setup_for_episode", "fsSetupForEpisode", "fs", "unit", [("episode", None, None)]),
+    ("FileSystem", "__init__", "fsInitMethod", "fs", "unit", [("kwargs", None, None)]),
+    ("FileSystem", "access_file", "fsAccessFile", "fs", "bool", [("folder_name", "Name", "name"), ("file_name", "Name", "name")]),
     ("FileSystem", "delete_file", "fsDeleteFile", "fs", "bool", [("folder_name", "Name", None), ("file_name", "Name", None)]),
     ("FileSystem", "restore_file", "fsRestoreFile", "fs", "bool", [("folder_name", "Name", None), ("file_name", "Name", None)]),
     ("FileSystem", "restore_folder", "fsRestoreFolder", "fs", "bool", [("folder_name", "Name", "name")]),
@@ -745,7 +933,9 @@ FOLDER_METHODS = [("restore", "folderRestore"), ("delete", "folderDelete"), ("ch
 FOLDER_UNIT_METHODS = [("_restoring_timestep", "folderRestoringTimestep")]
 TRANSLATED = (["Folder.restore_file", "Folder.add_file"] + [f"File.{m}" for m, _ in FILE_METHODS]
               + [f"Folder.{m}" for m, _ in FOLDER_METHODS] + [f"Folder.{m}" for m, _ in FOLDER_UNIT_METHODS]
-              + [f"{c}.{m}" for c, m, *_ in LOOKUP_METHODS] + list(INERT_ATTRS))
+              + [f"{c}.{m}" for c, m, *_ in LOOKUP_METHODS] + list(INERT_ATTRS)
+              + [f"{cn}.{m}" for _, cn, m, _ in INERT_METHODS] + ["Folder.apply_timestep", "FileSystem.apply_timestep", "Folder.describe_state", "FileSystem.describe_state",
+                 "FileSystem.scan", "FileSystem.reveal_to_red"])
 
 
 def emit() -> str:
@@ -775,7 +965,8 @@ def emit() -> str:
     _check_inert_methods()
     for cn, m, nm, kind, res, params in LOOKUP_METHODS:
         fn = find_method(fo if cn == "Folder" else fsc, m)
-        if [a.arg for a in fn.args.args] != ["self"] + [p for p, _, _ in params]:
+        sig = [a.arg for a in fn.args.args] + ([fn.args.kwarg.arg] if fn.args.kwarg else [])
+        if sig != ["self"] + [p for p, _, _ in params]:
             raise Unsupported(f"signature of {cn}.{m}")
         env = {p: k for p, _, k in params if k}
         env["@method"] = m
@@ -783,6 +974,8 @@ def emit() -> str:
         V = "(g : Folder)" if kind == "folder" else "(s : State)"
         R += [f"/-- `{cn}.{m}`, translated statement by statement -/",
               f"def {nm} {V} {binders} : {RESULT_TYPE[(kind, res)]} :=", _lstmts(list(fn.body), kind, res, env, 1), ""]
+    R += _tick_methods()
+    R += _describe_methods()
     L = ["import PrimaiteModel.Model.FileSystemHealth", "namespace Primaite.Gen.FileSystemMethods", "open Primaite.FileSystem", "",
          "/-- `Folder.restore_file`, translated statement by statement -/",
          "def folderRestoreFile (g : Folder) (file_name : Name) : Folder × Bool :=",
